@@ -13,10 +13,12 @@ import Pdb.Model.MultiTree
 import Pdb.Model.Migrate
 import Pdb.Model.BTree
 import Pdb.Model.BTreeBatch
+import Pdb.Model.BTreePipe
 import Pdb.Model.Index
 import Pdb.Model.DumpCheck
 import Pdb.Model.DumpCheckRc
 import Pdb.Model.C02xDriver
+import Pdb.Model.C11Driver
 import Pdb.Model.RefineRc
 import Pdb.Model.Recover
 
@@ -117,6 +119,8 @@ structure State where
   c04b : Option Pdb.C04.DrvB := none
   c09 : Pdb.Index.DState := Pdb.Index.DState.init
   c02x : Pdb.C02xDriver.State := none
+  c11 : Pdb.C11Driver.State := none
+  lastTree : List String := []   -- tokens of the last `t2 tree` dump (reused by `c04b cursor load`)
   r5 : Pdb.RefineRc.DState := Pdb.RefineRc.DState.init
   p1r : Pdb.RecoverDriver.State := none   -- file-tracking wrapper around p1, fed every `p1` line
 
@@ -149,6 +153,11 @@ def stepLine (s : State) (line : String) : State × String :=
   | "c04" :: rest =>
     let r := Pdb.C04.driverStep s.c04 rest
     ({ s with c04 := r.1 }, r.2)
+  | "c04b" :: "cursor" :: rest =>
+    -- `c04b cursor load` without arguments loads the dump of the last `t2 tree` line
+    let args := if rest == ["load"] then "load" :: s.lastTree else rest
+    let r := Pdb.C04.driverStep s.c04 ("cursor" :: args)
+    ({ s with c04 := r.1 }, r.2)
   | "c04b" :: rest =>
     let r := Pdb.C04.driverStepB s.c04b rest
     ({ s with c04b := r.1 }, r.2)
@@ -159,6 +168,8 @@ def stepLine (s : State) (line : String) : State × String :=
     let (st', out) := Pdb.ValueTable.step s.c06 rest
     ({ s with c06 := st' }, out)
   | "c06" :: rest => (s, Pdb.ValueTable.driverLine rest)
+  | "t2" :: "tree" :: rest =>
+    ({ s with lastTree := rest }, Pdb.DumpCheck.driverLine ("tree" :: rest))
   | "t2" :: rest => (s, Pdb.DumpCheck.driverLine rest)
   | "t2rc" :: rest => (s, Pdb.DumpCheckRc.driverLine rest)
   | "c02x" :: rest =>
@@ -167,6 +178,9 @@ def stepLine (s : State) (line : String) : State × String :=
   | "r5" :: rest =>
     let (d, out) := Pdb.RefineRc.step s.r5 rest
     ({ s with r5 := d }, out)
+  | "c11" :: rest =>
+    let (c, o) := Pdb.C11Driver.step s.c11 rest
+    ({ s with c11 := c }, o)
   | [] => (s, "")
   | _ => (s, "bad-op")
 
